@@ -33,6 +33,22 @@ Theorem decode_borders_canonical : forall H W rs allow, canonical_rooms (Z.of_na
 Proof. intros H W rs allow (Hv & Hc & Hh). exact (RoomsProofs.decode_borders_canonical H W rs Hv Hc Hh allow). Qed.
 Print Assumptions decode_borders_canonical.
 
+(* rooms and cells listed in ANY order: the text decodes to every canonical arrangement rs' of the same partition
+   (rooms as sets of cells) - i.e. the value is recovered up to the canonical ordering of rooms and cells *)
+Theorem rooms_roundtrip_any_order : forall h w skip allow rs rs' s, 1 <= h -> 1 <= w ->
+  valid_rooms h w rs -> canonical_rooms h w rs' -> rooms_equiv rs rs' ->
+  serialize_problem (Rooms skip allow) (rooms_to_pv rs) h w = Ok s ->
+  deserialize_problem (Rooms skip allow) s h w = Ok (Some (rooms_to_pv rs')).
+Proof. exact RoomsProofs.rooms_roundtrip_any_order. Qed.
+Print Assumptions rooms_roundtrip_any_order.
+
+(* Rooms.serialize computes the room-index grid of any valid partition (rooms in any order) *)
+Theorem rooms_assign_correct : forall H W rs, valid_rooms (Z.of_nat H) (Z.of_nat W) rs ->
+  rooms_assign (Z.of_nat H) (Z.of_nat W) (neg_grid (Z.of_nat H) (Z.of_nat W)) 0 (map room_to_pv rs)
+  = Ok (mk_grid H W (fun y x => rid_of rs (y, x))).
+Proof. exact assign_correct. Qed.
+Print Assumptions rooms_assign_correct.
+
 (* leading characters: what serialization emits starts in the first set; a strict term decodes nothing else *)
 Theorem first_of_ser : forall e c, env_ok e -> wf c = true -> rooms_free c = true -> FS e c.
 Proof. exact CombRoundTrip.first_of_ser. Qed.
